@@ -8,9 +8,13 @@ tiny-std locks with the verif-hooks feature:
   * natively under ThreadSanitizer
 The harness speaks the '@@' protocol; this module adds the classification of Miri / TSan reports.
 """
+import concurrent.futures
 import json
 import os
 import re
+import signal
+import subprocess
+import time
 
 import vlib
 
@@ -41,9 +45,53 @@ def setup_builds(with_tsan=True):
 
 def warm_miri():
     argv, env, cwd = vlib.miri_cmd(CRATE, "h_locks-miri", BIN, ["noop"], [])
-    r = vlib.run_one(argv, env=env, cwd=cwd, timeout=1800)
+    r = run_bounded(argv, env=env, cwd=cwd, timeout=1800)
     if r["rc"] != 0:
         raise vlib.BuildError("miri build of h_locks failed:\n" + r["err"][-3000:])
+
+
+# ---------------------------------------------------------------------------------------------------
+# bounded execution: every job has a hard wall-clock bound and the whole batch a deadline
+# ---------------------------------------------------------------------------------------------------
+def run_bounded(argv, env=None, cwd=None, timeout=600):
+    """Like vlib.run_one, but the job runs in its own process group and the whole group is killed when
+    the bound is hit (cargo -> cargo-miri -> miri would otherwise survive and keep the pipes open)."""
+    t0 = time.time()
+    p = subprocess.Popen(argv, env=env, cwd=cwd, stdout=subprocess.PIPE, stderr=subprocess.PIPE,
+                         stdin=subprocess.DEVNULL, start_new_session=True)
+    timed_out = False
+    try:
+        out, err = p.communicate(timeout=timeout)
+    except subprocess.TimeoutExpired:
+        timed_out = True
+        try:
+            os.killpg(p.pid, signal.SIGKILL)
+        except OSError:
+            pass
+        try:
+            out, err = p.communicate(timeout=20)
+        except subprocess.TimeoutExpired:
+            p.kill()
+            out, err = b"", b""
+    return dict(rc=None if timed_out else p.returncode, out=(out or b"").decode("utf-8", "replace"),
+                err=(err or b"").decode("utf-8", "replace"), timed_out=timed_out, wall=time.time() - t0, argv=argv)
+
+
+def run_batch(runs, deadline_s, nproc=None):
+    """Run the jobs (dicts of run_bounded kwargs) on nproc workers. No job runs past the batch deadline:
+    its bound is cut to what is left, and jobs that could not start in time are not run at all."""
+    t_end = time.time() + deadline_s
+
+    def one(r):
+        left = t_end - time.time()
+        if left < 5:
+            return dict(rc=None, out="", err="", timed_out=True, wall=0.0, argv=r["argv"], not_run=True)
+        r = dict(r)
+        r["timeout"] = min(r.get("timeout", 600), left)
+        return run_bounded(**r)
+
+    with concurrent.futures.ThreadPoolExecutor(max_workers=nproc or vlib.NCPU) as ex:
+        return list(ex.map(one, runs))
 
 
 def setup():
@@ -88,12 +136,16 @@ def classify_miri(ck, pid, res, label, seed=None):
     where: a data race on the protected payload / inside repo code, a deadlock with a thread parked in
     the repo's futex wait, or UB whose first non-std frame is repo code are violations; anything whose
     first non-std frame is the harness is a harness problem (inconclusive)."""
+    nv = len(ck.violations)
     ck.consume(res["out"], context=label)
     if res["timed_out"]:
-        ck.note_inconclusive("%s: wall-clock watchdog fired after %.0fs (no verdict)" % (label, res["wall"]))
+        ck.note_inconclusive("%s: watchdog: %s (no verdict)" % (
+            label, "not run, the batch deadline was reached" if res.get("not_run") else "wall-clock bound hit after %.0fs" % res["wall"]))
         return False
     if res["rc"] == 0:
         return True
+    if res["rc"] == 3 and len(ck.violations) > nv:
+        return False  # the harness' own monitor reported and ended the (stuck) program
     err = res["err"]
     blocks = [b for b in miri_error_blocks(err) if not b.startswith("error: aborting") and "could not compile" not in b]
     if "could not compile" in err or "error[E" in err:
@@ -145,7 +197,8 @@ def classify_miri(ck, pid, res, label, seed=None):
 def classify_tsan(ck, pid, res, label):
     ck.consume(res["out"], context=label)
     if res["timed_out"]:
-        ck.note_inconclusive("%s: wall-clock watchdog fired after %.0fs (no verdict)" % (label, res["wall"]))
+        ck.note_inconclusive("%s: watchdog: %s (no verdict)" % (
+            label, "not run, the batch deadline was reached" if res.get("not_run") else "wall-clock bound hit after %.0fs" % res["wall"]))
         return False
     err = res["err"]
     reports = re.split(r"(?m)^==================\n", err)
@@ -161,15 +214,21 @@ def classify_tsan(ck, pid, res, label):
             ck.note_inconclusive("%s: ThreadSanitizer report not on the payload / repo code: %s" % (label, r[:1500]))
     if reports:
         return False
-    if res["rc"] not in (0, 3) and not (res["rc"] == 66 and only_leaks):
+    if res["rc"] not in (0, 3, 4) and not (res["rc"] == 66 and only_leaks):
         ck.note_inconclusive("%s: exit status %s; stderr tail: %s" % (label, res["rc"], err[-600:]))
         return False
     return res["rc"] == 0
 
 
 def consume_native(ck, res, label):
-    # exit status 3 = the in-process deadlock watchdog reported (already a @@VIOL line)
-    return ck.consume_result(res, label, expect_rc=(0, 3))
+    # exit status 3 = an in-process oracle reported and ended the stuck process (already a @@VIOL line),
+    # 4 = the in-process stall watchdog ended it (already an @@INCONCLUSIVE line)
+    if res["timed_out"]:
+        ck.consume(res["out"], context=label)
+        ck.note_inconclusive("%s: watchdog: %s (no verdict)" % (
+            label, "not run, the batch deadline was reached" if res.get("not_run") else "wall-clock bound hit after %.0fs" % res["wall"]))
+        return False
+    return ck.consume_result(res, label, expect_rc=(0, 3, 4)) and res["rc"] == 0
 
 
 _AGG = re.compile(r"^@@AGG (.*)$", re.M)
@@ -204,7 +263,7 @@ def miri_job(kind, gen_seed, first, nprog, spin, spur, pty, preempt, casfail, se
 
 def native_job(envname, bindir, mode, kind, seed, budget, rest, timeout, tsan=False):
     argv = [os.path.join(bindir, BIN), mode, str(seed), str(budget), kind] + [str(x) for x in rest]
-    env = vlib.base_env({"HL_ENV": envname})
+    env = vlib.base_env({"HL_ENV": envname, "HL_STALL_MS": "45000" if tsan else "30000"})
     if tsan:
         env["TSAN_OPTIONS"] = "halt_on_error=1 exitcode=66 second_deadlock_stack=1 report_signal_unsafe=0"
     label = "%s %s %s seed=%d budget=%d args=%s" % (envname, mode, _kname(kind), seed, budget, " ".join(str(x) for x in rest))
@@ -224,15 +283,15 @@ def plan(ck, kind):
     for i, nt in enumerate([2, 3, 4, 8, 16] if quick else [2, 2, 3, 4, 4, 6, 8, 8, 12, 16, 16, 24, 32]):
         for envname, d in (("debug", dbg), ("release", rel)):
             jobs.append(native_job(envname, d, "stress", kind, r.getrandbits(40), ms,
-                                   [nt, 1 + (i % 2), r.choice(SPINS), r.choice(SPURS)], timeout=ms / 1000 + 150))
+                                   [nt, 1 + (i % 2), r.choice(SPINS), r.choice(SPURS)], timeout=ms / 1000 + (60 if quick else 300)))
     # ---- ThreadSanitizer -------------------------------------------------------------------------
     for i in range(1 if quick else 10):
         tms = 5000 if quick else 30000
         jobs.append(native_job("tsan", tsan, "stress", kind, r.getrandbits(40), tms,
                                [r.choice([4, 8, 16]), 1 + (i % 2), r.choice(SPINS), r.choice([0, 5])],
-                               timeout=tms / 1000 + 300, tsan=True))
+                               timeout=tms / 1000 + (90 if quick else 400), tsan=True))
     jobs.append(native_job("tsan", tsan, "prog", kind, gen_seed, 3 if quick else 20,
-                           [0, 60 if quick else 400, r.choice(SPINS), r.choice(SPURS), 0], timeout=600 if quick else 2400, tsan=True))
+                           [0, 60 if quick else 400, r.choice(SPINS), r.choice(SPURS), 0], timeout=150 if quick else 2400, tsan=True))
     # ---- native program executions ---------------------------------------------------------------
     nshard = 3 if quick else 12
     per = 60 if quick else 400
@@ -240,7 +299,7 @@ def plan(ck, kind):
     for i in range(nshard):
         for envname, d in (("debug", dbg), ("release", rel)):
             jobs.append(native_job(envname, d, "prog", kind, gen_seed, reps,
-                                   [i * per, per, SPINS[i % 3], SPURS[(i // 3 + i) % 3], 0], timeout=600 if quick else 2400))
+                                   [i * per, per, SPINS[i % 3], SPURS[(i // 3 + i) % 3], 0], timeout=120 if quick else 2400))
     # ---- Miri ------------------------------------------------------------------------------------
     # every (program group, interpreter seed) pair gets its own flag combination, rotating through all values
     ngroups, gsize, nseeds = (5, 8, 12) if quick else (48, 8, 18)
@@ -253,13 +312,14 @@ def plan(ck, kind):
             spur = SPURS[(k // 4 + g) % 3]
             pty = PTYIELD[(k // 5 + sd) % 3]
             jobs.append(miri_job(kind, gen_seed, g * gsize, gsize, spin, spur, pty, preempt, cas,
-                                 sd + 100 * (ck.seed % 1000), timeout=3000))
+                                 sd + 100 * (ck.seed % 1000), timeout=180 if quick else 900))
     return jobs
 
 
 def execute(ck, kind, jobs):
     pid = ck.pid
-    results = vlib.run_parallel([j["run"] for j in jobs], nproc=vlib.NCPU)
+    # hard bounds: quick ends at most ~7 min after the builds even if every single job hangs
+    results = run_batch([j["run"] for j in jobs], deadline_s=400 if ck.tier == "quick" else 3 * 3600, nproc=vlib.NCPU)
     per_env = {}
     flagsets = set()
     for j, res in zip(jobs, results):
@@ -292,7 +352,11 @@ RULE = ("programs are generated from the seed (2-4 threads, 2-6 operations each 
         "failure rates x spin limits x injected spurious futex returns, (b) natively in debug and release with seeded "
         "delays at the hook points, (c) as 2-32 thread stress loops natively and under ThreadSanitizer; one evaluation "
         "= one program execution or one stress run judged by the monitors (occupancy, stamp chain on a plain payload, "
-        "try justification by outer intervals, futex-hook attribution, deadlock = all parked). non-trivial = at least "
+        "try justification by outer intervals, futex-hook attribution, deadlock = all parked, livelock = one call passing "
+        "hook points without end while nothing else moves and the books show the lock free); the programs also format "
+        "locks and guards (String, fixed-size sink running full at a chosen byte, failing / panicking payload Debug) and "
+        "each process first runs a single-threaded battery over Default/get_mut/into_inner and every formatting entry "
+        "point at every byte position. non-trivial = at least "
         "one futex wait that really slept or one failed try_*; distinct = (program, schedule signature) under Miri, "
         "where the signature hashes the order of critical-section entries, per-thread park/wake/spurious counts and "
         "failed tries; coarse (env, threads, locks, parks, failed tries, spurious, hand-off paths) classes natively")
@@ -314,7 +378,7 @@ def replay(ck, kind, path):
         env["TSAN_OPTIONS"] = "halt_on_error=1 exitcode=66"
     n = 1 if job["kind"] == "miri" else 8
     for i in range(n):
-        res = vlib.run_one(job["argv"], env=env, cwd=job.get("cwd"), timeout=3000)
+        res = run_bounded(job["argv"], env=env, cwd=job.get("cwd"), timeout=600)
         label = "replay %d of %s" % (i, job["label"])
         if job["kind"] == "miri":
             classify_miri(ck, ck.pid, res, label)
@@ -366,6 +430,9 @@ def run(ck, kind, replay_path=None):
     ck.assume("weak-memory outcomes only as far as Miri's store buffers and x86-64 hardware produce them")
     ck.assume("native deadlock verdict = every live thread between the futex hook's WAIT_ENTER and WAIT_EXIT, shown inside futex(2) by /proc/self/task/<tid>/syscall, "
               "no guard held, no hook event for 250 ms; wall-clock timeouts are inconclusive")
+    ck.assume("livelock verdict is a count, not a clock: one blocking call passed 300000 (Miri: 3000) hook points / futex-wait entries without sleeping while "
+              "no operation of any thread completed, the monitor's occupancy of that lock is zero and every other thread is finished, parked or inside a blocking call")
+    ck.assume("every job has a hard wall-clock bound (process group killed) and the batch a deadline; hitting either is reported as 'watchdog' and is never a verdict")
     if kind == "rw":
         ck.assume("a refused try_read is accepted when a writer's outer interval (call..drop) or a blocking read() call of another thread overlaps it (a waiting bit may have been set)")
     return RULE
